@@ -421,7 +421,7 @@ def run(check, an: Analysis):
                   and isinstance(e['value'], ast.Constant) and e['value'].value is True]
         woke = [i for i, e in enumerate(path.events) if is_call_to(e, '__trigger__')]
         sched = [i for i, e in enumerate(path.events) if e.kind == 'call' and isinstance(
-            e.node, ast.Call) and ast.unparse(e.node.func) == 'self.env.schedule'
+            e.node, ast.Call) and rules.text_at(path, e, e.node.func) == 'self.env.schedule'
             and [ast.unparse(a) for a in e.node.args] == ['self']]
         ok = len(raised) == 1 and len(woke) == 1 and len(sched) == 1 and raised[0] < woke[0]
         check.instance('T', 'Event._trigger:complete', ok, where_fn(trig.fn),
@@ -442,7 +442,7 @@ def run(check, an: Analysis):
         calls = [i for i, e in enumerate(path.events)
                  if e.kind == 'call' and isinstance(e.node, ast.Call)
                  and isinstance(e.node.func, ast.Name) and e.get('how') == 'call'
-                 and len(e.node.args) == 1 and ast.unparse(e.node.args[0]) == 'self']
+                 and len(e.node.args) == 1 and rules.text_at(path, e, e.node.args[0]) == 'self']
         if calls:
             ok = bool(swap) and swap[0] < calls[0]
             check.instance('T', '_invoke_callbacks:swap-before-calls', ok, where_fn(inv.fn),
@@ -556,7 +556,7 @@ def run(check, an: Analysis):
         if path.kind != 'return':
             continue
         native = any(e.kind == 'call' and isinstance(e.node, ast.Call) and
-                     ast.unparse(e.node.func) == 'AwaitableEvent' for e in path.events)
+                     rules.text_at(path, e, e.node.func) == 'AwaitableEvent' for e in path.events)
         if native:
             continue
         n += 1
@@ -741,7 +741,7 @@ def run(check, an: Analysis):
             kinds['returns'] = rules.value_text(
                 path, len(path.events), path.outcome[1]) == 'until.value' and any(
                 is_call_to(e, 'run') or (e.kind == 'call' and isinstance(e.node, ast.Call)
-                                         and ast.unparse(e.node.func) == 'usim_run')
+                                         and rules.text_at(path, e, e.node.func) == 'usim_run')
                 for e in path.events)
     check.instance('U', 'run:inside-refused', kinds.get('inside') is True, where_fn(runm.fn),
                    'env.run inside a usim simulation raises NotCompatibleError')
